@@ -3,8 +3,10 @@
    X*  exhaustive design check: every disjunct of Next is a named action (coverage); no history.
    Q*  run-to-quiescence behaviours for leg A1: an external stimulus is only applied when no
        internal step is enabled; the history records the stimuli and the result of every call.
+       The reader task may be pending in a receive while the writer task is given its next call.
    R*  fine-grained behaviours for leg A2 (simulation): the history is the projection of every
-       step to a stimulus token (D arrival, r/s/c application call, C cancel, S one loop pass). *)
+       step to a stimulus token (D arrival, F server failure, r reader call, s/c writer call,
+       C cancel, S one loop pass). *)
 EXTENDS WsBuffer, Json
 VARIABLES h, fin
 mcvars == <<vars, h, fin>>
@@ -12,6 +14,7 @@ Keep == UNCHANGED <<h, fin>>
 
 XInit == Init /\ h = <<>> /\ fin = FALSE
 XSrvArrive     == SrvArrive /\ Keep
+XSrvFail       == SrvFail /\ Keep
 XPumpLoop      == PumpLoop /\ Keep
 XPumpGot       == PumpGot /\ Keep
 XPumpCheck     == PumpCheck /\ Keep
@@ -27,26 +30,35 @@ XSendRet       == SendRet /\ Keep
 XAppClose      == AppClose /\ Keep
 XCloseSent     == CloseSent /\ Keep
 XCloseFinish   == CloseFinish /\ Keep
-XNext == XSrvArrive \/ XPumpLoop \/ XPumpGot \/ XPumpCheck \/ XPumpWake \/ XPumpCancelled \/ XAppRecv \/ XRecvLoop
-         \/ XRecvWake \/ XRecvRawRet \/ XCancelRecv \/ XAppSend \/ XSendRet \/ XAppClose \/ XCloseSent \/ XCloseFinish
+XNext == XSrvArrive \/ XSrvFail \/ XPumpLoop \/ XPumpGot \/ XPumpCheck \/ XPumpWake \/ XPumpCancelled \/ XAppRecv
+         \/ XRecvLoop \/ XRecvWake \/ XRecvRawRet \/ XCancelRecv \/ XAppSend \/ XSendRet \/ XAppClose \/ XCloseSent
+         \/ XCloseFinish
 XSpec == XInit /\ [][XNext]_mcvars
 XFairSpec == XSpec /\ WF_mcvars(XPumpLoop \/ XPumpGot \/ XPumpCheck \/ XPumpWake \/ XPumpCancelled)
-                   /\ WF_mcvars(XRecvLoop \/ XRecvWake \/ XRecvRawRet \/ XSendRet \/ XCloseSent \/ XCloseFinish)
+                   /\ WF_mcvars(XRecvLoop \/ XRecvWake \/ XRecvRawRet)
+                   /\ WF_mcvars(XSendRet \/ XCloseSent \/ XCloseFinish)
                    /\ WF_mcvars(XSrvArrive)
-XSenderLearnsPromptly == [][(apc = "idle" /\ apc' = "sending") => ~disc]_mcvars
+XSenderLearnsPromptly == [][(wpc = "idle" /\ wpc' = "sending") => ~disc]_mcvars
+(* the scenario the two-task model exists for must be reachable: a receive pending on an empty
+   buffer is released because the pump was cancelled by close() / ended by a server failure *)
+ReleasedByClose == ~(rpc = "recvWait" /\ popW = "pending" /\ ppc = "cancelled")
+ReleasedByFault == ~(rpc = "recvWait" /\ popW = "pending" /\ ppc = "failed")
 
 (* ---- leg A1: run-to-quiescence behaviours ---- *)
 Ent(e, op, r, p) == [e |-> e, op |-> op, r |-> r, pulls |-> p]
-LogRet(hh) == IF Returned THEN Append(hh, Ent("R", last'.op, last'.r, NIL)) ELSE hh
+LogRet(hh) == IF RReturned THEN Append(hh, Ent("R", "recv", rlast', NIL))
+              ELSE IF WReturned THEN Append(hh, Ent("R", wlast'.op, wlast'.r, NIL))
+              ELSE hh
 QStim(A, e, op) == Quiet /\ ~fin /\ A /\ h' = LogRet(Append(h, Ent(e, op, NIL, pulls))) /\ UNCHANGED fin
 QArrive == QStim(SrvArrive, "D", "")
+QFail   == QStim(SrvFail, "F", "")
 QRecv   == QStim(AppRecv, "A", "recv")
 QSend   == QStim(AppSend, "A", "send")
 QClose  == QStim(AppClose, "A", "close")
 QCancel == QStim(CancelRecv, "C", "")
 QInternal == ~fin /\ Internal /\ h' = LogRet(h) /\ UNCHANGED fin
 QFin == Quiet /\ ~fin /\ fin' = TRUE /\ UNCHANGED <<vars, h>>
-QNext == QArrive \/ QRecv \/ QSend \/ QClose \/ QCancel \/ QInternal \/ QFin
+QNext == QArrive \/ QFail \/ QRecv \/ QSend \/ QClose \/ QCancel \/ QInternal \/ QFin
 QEmit == fin => PrintT(ToJson([mq |-> mq, all |-> all, h |-> h, pulls |-> pulls,
                                pumpAlive |-> (ppc \in Live), outstanding |-> (pull # "none"),
                                waiting |-> Waiting]))
@@ -55,12 +67,13 @@ QEmit == fin => PrintT(ToJson([mq |-> mq, all |-> all, h |-> h, pulls |-> pulls,
 CONSTANT Depth
 Tok(A, t) == A /\ h' = Append(h, t) /\ UNCHANGED fin
 RArrive == Tok(SrvArrive, "D")
+RFail   == Tok(SrvFail, "F")
 RRecv   == Tok(AppRecv, "r")
 RSend   == Tok(AppSend, "s")
 RClose  == Tok(AppClose, "c")
 RCancel == Tok(CancelRecv, "C")
 RStep   == Tok(Internal, "S")
 RPass   == Tok(UNCHANGED vars, "S")
-RNext == RArrive \/ RRecv \/ RSend \/ RClose \/ RCancel \/ RStep \/ RPass
+RNext == RArrive \/ RFail \/ RRecv \/ RSend \/ RClose \/ RCancel \/ RStep \/ RPass
 REmit == (Len(h) = Depth) => PrintT(ToJson([mq |-> mq, all |-> all, h |-> h]))
 ============================================================================
